@@ -186,6 +186,15 @@ def run(ctx):
         d["message"] = msg
         add("typeddata/cycle-off-the-primary-type", "typeddata", json.dumps(d))
         cycle_docs.append(json.dumps(d))
+    for depth in (20, 40, 80):
+        d = json.loads(json.dumps(TYPED))
+        tys = {"T%d" % i: [{"name": "a", "type": "T%d[]" % (i + 1)}, {"name": "b", "type": "T%d[]" % (i + 1)}, {"name": "c", "type": "T%d[2][]" % (i + 1)}] for i in range(depth)}
+        tys["T%d" % depth] = [{"name": "v", "type": "uint8"}]
+        d["types"] = dict(tys, EIP712Domain=d["types"]["EIP712Domain"])
+        d["primaryType"] = "T0"
+        d["message"] = {"a": [], "b": [], "c": []}
+        add("typeddata/layered-graph", "typeddata", json.dumps(d))
+        cycle_docs.append(json.dumps(d))
     for depth in (64, 128):
         add("typeddata/nesting", "typeddata", '{"types":' + "[" * depth + "]" * depth + "}")
         v = "1"
